@@ -131,6 +131,23 @@ ADD = {
  'C17': dict(technique='must-pass rule for computed cursor positions; path rule for the integer parser tail; loop-structure rule for the NUL-insensitive comparator',
              text='Also decided: a computed position is stored into a ring cursor only after its wrap test; the whitespace-tolerant integer parser returns the number only with the cursor at the end; the NUL-insensitive comparator skips trailing NULs of its first operand before comparing lengths.'),
 }
+ADD2 = {
+ 'C01': 'Also: sub-windows (A + k, n) handed to memchr/memcmp-family calls or to functions with adjacent (pointer, length) parameters stay inside the window the caller pairs A with, and an unsigned count x - c cannot have wrapped (102 hand-overs, 96 decided).',
+ 'C03': 'Also: after the copy into the carry buffer the consumer position is moved up on every successful path; the six request/response pairs of buffering and receiver helpers are mirror images (the buffering pair up to one reviewed statement).',
+ 'C04': 'Also: tx->index (creation ordinal) never addresses the transaction list, whose positions move when finished transactions are shifted off.',
+ 'C06': 'Also: the body hook runners return in front of the hooks only for data != NULL (the end-of-body marker always passes); the chunk-data states and the hybrid body entry points of the two directions are mirror images up to one reviewed statement.',
+ 'C07': 'Also: the time budget is charged with exactly the elapsed microseconds (linear form on both arms of the helper); a response body state that handles stream closure tests for it before it can return "need more data".',
+ 'C09': 'Also: the byte trackers count on every path that has a connection; tracker, consumed-count accessor and state-change handler pairs are mirror images. Recorded D23 instance keys say what is untested, so a variant that tests nothing is a new violation.',
+ 'C11': 'Also: the request-target host is validated whoever built parsed_uri (a URI supplied in hybrid mode included).',
+ 'C16': 'Also: every method name of the method table is reachable under the guards in front of its comparison; direction isolation - a function of one direction stores to the other direction\'s state only at the 23 tabled hand-over points and does not read the other direction\'s twin of a field it has itself.',
+ 'C17': 'Also: response_status_number is replaced by INVALID only on paths that failed a test of the number itself.',
+ 'C19': 'Also: the ten request/response pairs of hook-registration and decompression setters are mirror images.',
+}
+for _p, _t in ADD2.items():
+    ADD.setdefault(_p, dict(technique='', text=''))
+    ADD[_p]['text'] = (ADD[_p]['text'] + ' ' + _t).strip()
+    if not ADD[_p]['technique']:
+        ADD[_p]['technique'] = 'sibling (mirror-function) agreement'
 for _p, _a in ADD.items():
     CHECKS[_p]['technique'] += '; ' + _a['technique']
     CHECKS[_p]['text'] += ' ' + _a['text']
